@@ -5618,6 +5618,8 @@ class CodegenCtx:
         elif literal.result_type() == OutputStorageType.INT:
             if literal.get_literal_result() > 0x7fffffffffffffff:
                 return str(literal.get_literal_result()) + "u"  # (too large for any signed type: C wants that spelled out)
+            if literal.get_literal_result() == -0x8000000000000000:
+                return "(-9223372036854775807 - 1)"  # (C has no literal for INT64_MIN)
             return str(literal.get_literal_result())
         elif literal.result_type() == OutputStorageType.STR:
             return '"{}"'.format(self._escape_string(literal.get_literal_result()))
